@@ -59,9 +59,10 @@ func (c CurlyRouter) selectRoutes(ws *WebService, requestTokens []string) sortab
 // matchesRouteByPathTokens computes whether it matches, howmany parameters do match and what the number of static path elements are.
 func (c CurlyRouter) matchesRouteByPathTokens(routeTokens, requestTokens []string, routeHasCustomVerb bool) (matches bool, paramCount int, staticCount int) {
 	if len(routeTokens) < len(requestTokens) {
-		// proceed in matching only if last routeToken is wildcard
+		// proceed in matching only if last routeToken is wildcard ({var:*}) ;
+		// a regular expression that merely ends in * (e.g. {code:[a-z][0-9]*}) still stands for one token
 		count := len(routeTokens)
-		if count == 0 || !strings.HasSuffix(routeTokens[count-1], "*}") {
+		if count == 0 || !strings.HasSuffix(routeTokens[count-1], ":*}") {
 			return false, 0, 0
 		}
 		// proceed
